@@ -219,7 +219,8 @@ def rule_reader(r):
 def rule_carry(r):
     """The reported <V_shell>, <V_form> and R_eff are the kernel's carried sums (shared with C01 R-C01-carry, Fq kernels):
     a sum restored from the wrong slot changes the reported volume only for meshes spanning several invocations."""
-    res = cfront.map_units("sa.rules.c01:analyse_unit")
+    from . import c01
+    res = c01._c_results()
     idx = cfront.generate_units()
     n = 0
     for unit, rows in sorted(res.items()):
@@ -242,6 +243,10 @@ RULES = [
     ("R-C14-interleave", 60, "F^2,F interleave on the writer side", make_c_rule("R-C14-interleave")),
     ("R-C14-reader", 30, "reader side, Iq uses the reported volume", rule_reader),
 ]
+
+
+from . import shared
+RULES = RULES + shared.bundle('C14', ['gate', 'restart', 'driver', 'norm'], ['kernel'])
 
 
 def run(tier="quick", replay=None):
